@@ -1208,14 +1208,11 @@ def m_str_strip(I, s, args, kwargs, node):
     if ps is not None:
         return V.VStr(ps.strip())
     x = Val.s(s)
-    if entails(I, z3.And(z3.Or(z3.PrefixOf(z3.StringVal("{"), x), z3.PrefixOf(z3.StringVal("["), x)),
-                         z3.Or(z3.SuffixOf(z3.StringVal("}"), x), z3.SuffixOf(z3.StringVal("]"), x)))):
+    if fast_entails(I, z3.And(z3.Or(z3.PrefixOf(z3.StringVal("{"), x), z3.PrefixOf(z3.StringVal("["), x)),
+                              z3.Or(z3.SuffixOf(z3.StringVal("}"), x), z3.SuffixOf(z3.StringVal("]"), x)))) is True:
         return s                          # delimited by brackets: no surrounding whitespace (lemma, audited)
     r = strip_of(x)
     I.assume(z3.Length(r) <= z3.Length(x))
-    # ground lemma (audited): a string that starts with '{' / '[' and ends with '}' / ']' has no surrounding whitespace
-    I.assume(z3.Implies(z3.And(z3.Or(z3.PrefixOf(z3.StringVal("{"), x), z3.PrefixOf(z3.StringVal("["), x)),
-                               z3.Or(z3.SuffixOf(z3.StringVal("}"), x), z3.SuffixOf(z3.StringVal("]"), x))), r == x))
     return V.VStr(r)
 
 
